@@ -89,21 +89,45 @@ def envelopeOk (O : Oracles) (a : ActionDecl) (kw : Kwargs) (t : Xml) : Bool :=
           | _ => false)
       | _ => false)
 
-/-- the property, for one call -/
-def ok (O : Oracles) (a : ActionDecl) (kw : Kwargs) (o : Obs) : Bool :=
+/-- refused with the library's error before anything is sent -/
+def refusedOk (o : Obs) : Bool :=
+  o.sent == 0 && (match o.err with | some e => e.isLibraryError | none => false)
+
+/-- exactly one request, and it says exactly what the caller asked -/
+def sentOk (O : Oracles) (a : ActionDecl) (kw : Kwargs) (o : Obs) : Bool :=
+  o.sent == 1
+  && o.method == "POST".toList
+  && (match urljoin a.deviceUrl a.controlUrl with | some u => o.url == u | none => true)
+  && header? o.headers "SOAPAction".toList == some ('"' :: a.serviceType ++ '#' :: a.name ++ ['"'])
+  && (match header? o.headers "Content-Type".toList with | some v => contentTypeOk v | none => false)
+  && header? o.headers "Host".toList == some (netloc o.url)
+  && (match o.tree with | some t => envelopeOk O a kw t | none => false)
+
+/-- the two clauses of the text, with Python's class relation settling every case -/
+def okCore (O : Oracles) (a : ActionDecl) (kw : Kwargs) (o : Obs) : Bool :=
   match allAccepted O a.strict a.inArgs kw with
   | none => true                                   -- declaration outside the modelled domain
-  | some false =>
-      -- refused with the library's error before anything is sent
-      o.sent == 0 && (match o.err with | some e => e.isLibraryError | none => false)
-  | some true =>
-      o.sent == 1
-      && o.method == "POST".toList
-      && (match urljoin a.deviceUrl a.controlUrl with | some u => o.url == u | none => true)
-      && header? o.headers "SOAPAction".toList == some ('"' :: a.serviceType ++ '#' :: a.name ++ ['"'])
-      && (match header? o.headers "Content-Type".toList with | some v => contentTypeOk v | none => false)
-      && header? o.headers "Host".toList == some (netloc o.url)
-      && (match o.tree with | some t => envelopeOk O a kw t | none => false)
+  | some false => refusedOk o
+  | some true => sentOk O a kw o
+
+/-- the assignment names something that is not an in-argument of the action: the text speaks of
+    omitted and of violating in-arguments only — whether extras are ignored or refused is not judged -/
+def hasExtras (a : ActionDecl) (kw : Kwargs) : Bool :=
+  kw.any fun p => !(a.inArgs.any fun d => d.name == p.1)
+
+/-- a supplied value whose class is a proper subclass of the declared one (`bool` for an integer
+    type, `datetime` for `date`): "has the declared type" is not settled by the text, so the
+    library may refuse it — but if it accepts it, everything about the request is demanded -/
+def unsettled (a : ActionDecl) (kw : Kwargs) : Bool :=
+  a.inArgs.any fun d =>
+    match kw.lookup d.name with
+    | some v => v.isInstance d.var.row.ty && !v.exactType d.var.row.ty
+    | none => false
+
+/-- the property, for one call -/
+def ok (O : Oracles) (a : ActionDecl) (kw : Kwargs) (o : Obs) : Bool :=
+  if hasExtras a kw then true
+  else okCore O a kw o || (unsettled a kw && refusedOk o)
 
 /-- the observable form of an exception the model raises (`anc` = library ancestors by class name) -/
 def excInfo (anc : String → List String) (e : Exc) : ExcInfo := { cls := e.tok, mro := anc e.tok }
